@@ -424,16 +424,7 @@ func ruleC16Pair(p *Prog, a *Anchors, r *Report) {
 				}
 				if !okFile {
 					// or: the position is only given when the error names no source / the same source
-					sameSource := func(c ssa.Value, pol bool) bool {
-						bo, ok := c.(*ssa.BinOp)
-						if !ok || bo.Op != token.EQL || !pol {
-							return false
-						}
-						fx, fy := loadsField(bo.X, "Error", "Filename"), loadsField(bo.Y, "Error", "Filename")
-						tx, _ := tokenOfFieldLoad(p, bo.X, "Filename", 0)
-						ty, _ := tokenOfFieldLoad(p, bo.Y, "Filename", 0)
-						return (fx && len(ty) > 0) || (fy && len(tx) > 0)
-					}
+					sameSource := func(c ssa.Value, pol bool) bool { return sameSourceAtom(p, c, pol) }
 					okFile = Guarded(g.line, sameSource)
 					if !okFile && paramIndexT5(f, g.line.Addr.(*ssa.FieldAddr).X) >= 0 {
 						// … the test may stand in the method that calls the setter
@@ -827,4 +818,23 @@ func freshErrorValue(x ssa.Value) bool {
 		}
 	}
 	return true
+}
+
+// sameSourceAtom: the edge (c, pol) establishes that the error names the source of the token, or no source at all (its
+// Filename is then filled in from the token): Filename == <token>.Filename, or Filename == "" (also as != on the other
+// edge). `if e.Filename != "" && e.Filename != t.Filename { return }` puts one of the two on every path that goes on.
+func sameSourceAtom(p *Prog, c ssa.Value, pol bool) bool {
+	bo, ok := c.(*ssa.BinOp)
+	if !ok || (bo.Op != token.EQL && bo.Op != token.NEQ) || (bo.Op == token.EQL) != pol {
+		return false
+	}
+	fx, fy := loadsField(bo.X, "Error", "Filename"), loadsField(bo.Y, "Error", "Filename")
+	tx, _ := tokenOfFieldLoad(p, bo.X, "Filename", 0)
+	ty, _ := tokenOfFieldLoad(p, bo.Y, "Filename", 0)
+	if (fx && len(ty) > 0) || (fy && len(tx) > 0) {
+		return true
+	}
+	sx, isSX := constString(bo.X)
+	sy, isSY := constString(bo.Y)
+	return (fx && isSY && sy == "") || (fy && isSX && sx == "")
 }
